@@ -1,6 +1,8 @@
 From Coq Require Import extraction.Extraction extraction.ExtrOcamlBasic.
-From TU Require Import Base C16_Model.
+From TU Require Import Base C16_Model C16_Machine.
 Definition run := run_C16.
 Definition check := check_C16.
-Definition agree (inp m i : val) : bool := val_eqb m i && uax29_agree inp.
+(* the implementation's output equals the unbounded model's, the cluster oracle is the model's segmentation,
+   and the machine-integer model (every usize operation explicit) yields the same output in both profiles *)
+Definition agree (inp m i : val) : bool := val_eqb m i && uax29_agree inp && machine_agree inp m.
 Extraction "model.ml" run check agree.
